@@ -32,7 +32,7 @@ Next == /\ Len(steps) < MaxSteps
 Init == FInit /\ steps = <<>> /\ expect = <<>> /\ obs = <<"-">>
 Spec == Init /\ [][Next]_<<vars, obs>>
 
-Last(s) == s[Len(s)]
+LastOf(s) == s[Len(s)]
 IsUse(s) == s.act \in {"construct", "contains", "len", "rule", "import", "configure"}
 \* the registry as the canaries do not distort it
 PlainHedges(r) == { key \in HKeys : r.hedge[key] # None } \cup {"any"}
@@ -42,8 +42,8 @@ PlainRule(r, i) ==
   ELSE <<"ok", [j \in 1..Len(x.ant.hs) |-> r.hedge[x.ant.hs[j]]], x.ant.t,
                [c \in 1..Len(x.cons) |-> [j \in 1..Len(x.cons[c].hs) |-> r.hedge[x.cons[c].hs[j]]]]>>
 SeesCurrentRegistry ==
-  (steps # <<>> /\ IsUse(Last(steps))) =>
-     LET s == Last(steps) IN
+  (steps # <<>> /\ IsUse(LastOf(steps))) =>
+     LET s == LastOf(steps) IN
      obs = IF s.act = "rule" THEN PlainRule(reg[cur], s.i) ELSE Result(reg[cur], [op |-> s.act, k |-> s.k, key |-> s.key, i |-> s.i])
 \* the held tree evaluates with the elements copied at parse time, whatever the registry is now
 RECURSIVE PlainEval(_,_)
@@ -57,10 +57,10 @@ PlainEval(t, x) ==
                       IF l = <<"unknown-variable">> \/ r = <<"unknown-variable">> THEN <<"unknown-variable">> ELSE EvalBin(t.o, l, r)
     [] t.k = "un" -> LET a == PlainEval(t.a, x) IN IF a = <<"unknown-variable">> THEN a ELSE EvalUn(t.o, a)
 KeepsParsedElements ==
-  (steps # <<>> /\ Last(steps).act = "Evaluate") =>
-     LET v == PlainEval(held[1], Last(steps).x) IN obs = IF v = <<"unknown-variable">> THEN <<"ValueError">> ELSE <<"value", v>>
+  (steps # <<>> /\ LastOf(steps).act = "Evaluate") =>
+     LET v == PlainEval(held[1], LastOf(steps).x) IN obs = IF v = <<"unknown-variable">> THEN <<"ValueError">> ELSE <<"value", v>>
 NewManagerHasDefaults == [][\A m \in Managers : (m \notin live /\ m \in live') => reg'[m] = Default]_<<vars, obs>>
-OthersUntouched == [][\A m \in live : (\E s \in {1} : Len(steps') > Len(steps) /\ Last(steps').act \in {"Register", "Deregister"} /\ Last(steps').m # m) => reg'[m] = reg[m]]_<<vars, obs>>
+OthersUntouched == [][\A m \in live : (\E s \in {1} : Len(steps') > Len(steps) /\ LastOf(steps').act \in {"Register", "Deregister"} /\ LastOf(steps').m # m) => reg'[m] = reg[m]]_<<vars, obs>>
 \* leaving a context restores the manager that was current when it was entered
 ContextRestores == [][(Len(saved') < Len(saved)) => cur' = saved[Len(saved)]]_<<vars, obs>>
 TypeOK == /\ live \subseteq Managers /\ cur \in live /\ DOMAIN reg = live /\ Len(saved) <= 2
@@ -83,7 +83,7 @@ DefaultTableAgrees ==
       /\ PostR(ReadFormulaR(DefaultTab, toks, NumTab)) = PostF(ReadFormula(toks, NumTab))
 ASSUME DefaultTableAgrees
 
-EmitInv == (Emit /\ Len(steps) = MaxSteps /\ (IsUse(Last(steps)) \/ Last(steps).act \in {"Parse", "Evaluate"})) =>
+EmitInv == (Emit /\ Len(steps) = MaxSteps /\ (IsUse(LastOf(steps)) \/ LastOf(steps).act \in {"Parse", "Evaluate"})) =>
               PrintT(ToJson([steps |-> steps, expect |-> expect]))
-View == <<reg, live, cur, saved, held, memo, Len(steps), IF steps = <<>> THEN <<>> ELSE <<Last(steps), Last(expect)>> >>
+View == <<reg, live, cur, saved, held, memo, Len(steps), IF steps = <<>> THEN <<>> ELSE <<LastOf(steps), LastOf(expect)>> >>
 =============================================================================
